@@ -12,8 +12,8 @@ spec = {
    "For every generated well-formed routine set the decompiled text must compile, and both the text read by Lang/SrcSem.v and its recompilation must be accepted as behaviourally equal to the input by the Coq-verified checker; routine tables compared. Universal claim not proved (structuring passes are not modelled)."),
  "C03": ("proof", "Coq proof over a model of the three label passes + exact pass-by-pass correspondence + closed_b (proved sound) on every real result",
    "Comp/Closed.v passes_closed: for every pass input with distinct offsets the result of strip_last_label;LabelFinalizer;OpsLabelJumpToRemover is closed; closed_b_sound. The pass models are compared pass by pass with the real functions on op lists captured from real compilations (macro programs included); closed_b and the table's arity evaluated on every real compilation."),
- "C04": ("proof", "Coq theorems for integer spelling, single-line and multi-line string literals over models tied to the real printers/readers by correspondence; real-code round trip of every parameter kind x context x indent with an explicit exact-form predicate",
-   "Partial proof (integers: parse_print_Z; single-line strings: single_roundtrip_dq/sq + single_lexes; multi-line strings: multi_roundtrip); fixed-point numbers, constants, position marks and the printing contexts are decided on the real printers/readers for generated and bounded-exhaustive values against an explicit `has_exact_form` predicate; residue recorded as known findings."),
+ "C04": ("proof", "Coq theorems for integers (every spelling), single-line and multi-line string literals, fixed-point values and position-mark arguments over models tied to the real printers/readers by correspondence; real-code round trip of every parameter kind x context x indent with an explicit exact-form predicate",
+   "Partial proof (integers: parse_print_Z; single-line strings: single_roundtrip_dq/sq + single_lexes; multi-line strings: multi_roundtrip; numbers: spellings_read, fixed_roundtrip, read_print_pos_arg, tie K-num); constants, mark names and the printing contexts are decided on the real printers/readers for generated and bounded-exhaustive values against an explicit `has_exact_form` predicate; residue recorded as known findings."),
  "C05": (tv, "Coq-verified validator against the inlined program (Lang/Inline.v); import layouts in real directories",
    "compiled macro programs are decided against cfg_of_prog(inline p) by the verified checker; definition orders permuted; import resolution checked on real temporary directory layouts."),
  "C06": (tv, "execution on generated + hand-written hard flow graphs; exactness of the fallback against the renumbered input",
@@ -36,12 +36,12 @@ spec = {
    "SM/Proofs.v: deserialize(serialize m) = m, stable re-serialisation, entries moved exactly along the mapping, return-address rule; the model is compared with the real SourceMap on generated maps x injective mappings and on maps produced by the real compiler/decompiler."),
  "C15": (tv, "real CLI subprocesses; the printed JSON renumbered as documented is decided against the source by the verified checker; CLI round trip",
    "exit status, JSON structure, jump numbering (via the verified bisimulation checker), acceptance and meaning of the decompile CLI's output, documented JSON documents incl. mixed routine kinds."),
- "C16": ("exploration", "token-level re-spelling/layout metamorphic check on the real compiler",
-   "k re-spellings per accepted program must compile to identical ops, tables and position marks."),
+ "C16": ("exploration", "token-level re-spelling/layout metamorphic check on the real compiler; Coq theorems for the number spellings (Text/Num.v, tie K-num)",
+   "k re-spellings per accepted program must compile to identical ops, tables and position marks (exploration). Proved: all spellings of an integer read as the same value (spellings_agree), leading zeros of fixed-point numbers (fixed_leading_zeros)."),
  "C17": ("proof", "Coq proofs about a model of the RegexLexer token loop over the rule table regenerated from the lexer class (regexes as oracle) + engine correspondence + real token streams on generated texts",
    "Pyg/Proofs.v: lossless for every text and matcher; total given min width >= 1 of every pattern; no error token given per-state coverage (both facts computed by the translator with sre_parse). The extracted loop fed with the real regexes' answers is compared with the real token stream; 'no error token on accepted sources' is additionally explored on generated sources."),
- "C18": ("exploration", "expected spans from the harness's own token placement vs the real listing; splice and recompile",
-   "the listing must delimit every Position literal exactly; splicing the span changes that parameter only."),
+ "C18": ("exploration", "expected spans from the harness's own token placement vs the real listing; splice and recompile; Coq theorem for the printed coordinates (Text/Num.v, tie K-num)",
+   "the listing must delimit every Position literal exactly; splicing the span changes that parameter only (exploration). Proved: the printed coordinate of a mark is read back as the same tile and offset (pos_arg_roundtrip)."),
 }
 props = [json.loads(l) for l in open('/verif/properties.jsonl')]
 checks = []
